@@ -116,6 +116,7 @@ type scen struct {
 	nw      int
 	events  []ev
 	settled bool
+	oneShot bool // socket streams: accept one connection, end when it ends
 	fifoDir string
 	// observations of the last execution
 	lines   []string
@@ -134,6 +135,9 @@ func (s *scen) name() string {
 	mode := "free"
 	if s.settled {
 		mode = "settled"
+	}
+	if s.oneShot {
+		mode += " one-shot"
 	}
 	return fmt.Sprintf("%s %s [%s]", s.kind, mode, strings.Join(es, " "))
 }
@@ -166,7 +170,11 @@ func (s *scen) body() {
 	var wg vsync.WaitGroup
 	wk := tlx.NewWaker()
 	target, addr := s.address()
-	ls, err := logstream.New(ctx, &wg, wk, target, logstream.OneShotDisabled)
+	mode := logstream.OneShotDisabled
+	if s.oneShot {
+		mode = logstream.OneShotEnabled
+	}
+	ls, err := logstream.New(ctx, &wg, wk, target, mode)
 	if err != nil {
 		s.err = "logstream.New: " + err.Error()
 		return
@@ -211,6 +219,9 @@ func (s *scen) body() {
 			} else {
 				c, err := vnet.Dial(addr)
 				if err != nil {
+					if s.oneShot {
+						continue // the listener is gone after the first connection: this writer reaches nobody
+					}
 					s.err = fmt.Sprintf("%s: %v", e, err)
 					return
 				}
@@ -223,7 +234,9 @@ func (s *scen) body() {
 			case isPipe(s.kind):
 				_, _ = fws[e.w].Write([]byte(e.data))
 			default:
-				_, _ = s.clients[e.w].Write([]byte(e.data))
+				if s.clients[e.w] != nil {
+					_, _ = s.clients[e.w].Write([]byte(e.data))
+				}
 			}
 			written += len(e.data)
 		case 'C':
@@ -233,8 +246,11 @@ func (s *scen) body() {
 				if open == 0 && written > 0 {
 					naturalEnd = true
 				}
-			} else if !isDgram(s.kind) {
+			} else if !isDgram(s.kind) && s.clients[e.w] != nil {
 				_ = s.clients[e.w].Close()
+				if s.oneShot && s.clients[e.w].C.Accepted {
+					naturalEnd = true // a one-shot stream ends with its one connection
+				}
 			}
 		case 'W':
 			wk.Broadcast()
@@ -401,6 +417,9 @@ func (s *scen) judge() (string, string) {
 			if !eq(per[w], want) {
 				return "framing", fmt.Sprintf("connection %d: the stream read %q, which frames to %q, but delivered %q (all delivered: %q)", w, c.Consumed, want, per[w], s.lines)
 			}
+			if s.oneShot && !c.Accepted {
+				continue // only the first connection is served
+			}
 			if s.settled && (!c.Accepted || len(c.Consumed) != len(c.Written)) {
 				return "lost", fmt.Sprintf("connection %d: the stream was idle after every event, yet it read only %q of %q (accepted: %v)", w, c.Consumed, c.Written, c.Accepted)
 			}
@@ -478,6 +497,23 @@ func main() {
 			}
 		}
 	}
+	// one-shot socket streams: one writer with every script, two writers with short ones
+	for _, k := range []string{"unix", "tcp"} {
+		n0 := len(scens)
+		for _, a := range scripts(c.Pick(1, 3), true, 'L', 'F') {
+			add(k, [][]byte{a}, true, 0)
+		}
+		two := scripts(1, true, 'L', 'F')
+		for i, a := range two {
+			for _, b := range two[i:] {
+				add(k, [][]byte{a, b}, c.Thorough(), 0)
+			}
+		}
+		for _, sc := range scens[n0:] {
+			sc.oneShot = true
+		}
+		scens = append(scens, &scen{kind: k, events: []ev{{kind: 'X'}}, settled: true, oneShot: true, fifoDir: fifoDir})
+	}
 	bound1, bound2 := c.Pick(3, 4), c.Pick(1, 3)
 	seenScen := map[string]bool{}
 	for _, s := range scens {
@@ -515,5 +551,5 @@ func main() {
 		"scheduling points: every synchronisation operation of internal/tailer/logstream and every simulated kernel operation; code between two points runs atomically",
 		"read deadlines are only ever 'now' (what mtail sets); wake-ups are issued while the stream is otherwise idle",
 	}
-	gsx.Finish(c, "stateless DFS over schedules of the stream's goroutines {accept loop, closer, connection handlers, deadline setters, reader} against one environment thread executing an enumerated event order (connect, write line / fragment / empty datagram, close, cancel at every position), settled and free-running, with at most `bound` deviations from the default schedule; oracle: delivered lines = framing of the bytes each Read returned, per connection, plus completeness when the stream was idle after every event, closure, termination, no crash; distinct_nontrivial = distinct final observations plus distinct schedules with >=1 deviation")
+	gsx.Finish(c, "stateless DFS over schedules of the stream's goroutines {accept loop, closer, connection handlers, deadline setters, reader} against one environment thread executing an enumerated event order (connect, write line / fragment / empty datagram, close, cancel at every position), settled and free-running, socket streams also in one-shot mode, with at most `bound` deviations from the default schedule; oracle: delivered lines = framing of the bytes each Read returned, per connection, plus completeness when the stream was idle after every event, closure, termination, no crash; distinct_nontrivial = distinct final observations plus distinct schedules with >=1 deviation")
 }
